@@ -28,6 +28,8 @@ BOUNDS = {
              "array lengths 0..3; FP mode: amounts over ALL IEEE doubles (NaN, inf, -0) with value unit = default unit, limits 0.0/10.0, lengths 0..3",
     "thorough": "same with array lengths 0..4 in both modes, every element order being covered by the symbolic elements",
 }
+BOUNDS_ALSO = '; also: a user-registered DECREASING unit; the verdict under reversal of rows and of elements inside a row (FP mode also for lists of tuples); the category default built in another unit (4 forms); histories: category redefined, copied with from_category, copy moved to another category, legacy-spelled valid units, Clear() and a new configuration of the same database object'
+BOUNDS = {k_: v_ + BOUNDS_ALSO for k_, v_ in BOUNDS.items()}
 ASSUMPTIONS = ["A-FP (Real mode): floats are exact reals", "FP mode: z3 Float64 semantics = IEEE-754 binary64 comparisons; numpy.isnan shimmed to fpIsNaN",
                "A-NP: numpy arrays as dtype=object arrays of proxies", "NaN/inf THROUGH a conversion expression is outside the claim",
                "tuple-of-tuples Arrays: every amount must satisfy the limits, so a NaN amount anywhere is rejected when a limit exists (only FLAT arrays skip NaN)"]
